@@ -29,10 +29,20 @@ def factsOf (path : Path) : List (E × Bool) :=
     | (.lt q p, false) => some (.sub q p, false)
     | _ => none
 
-/-- syntactically non-negative slack: `0`, `1`, `2`, the machine epsilon, `1 + eps` -/
+/-- the literal sub-terms of an expression (through `+ - * neg`) -/
+def E.lits : E → List E
+  | .lit n d => [.lit n d]
+  | .add a b | .sub a b | .mul a b => a.lits ++ b.lits
+  | .neg a => a.lits
+  | _ => []
+def isNonnegLit : E → Bool
+  | .lit n _ => decide (0 ≤ n)
+  | _ => false
+
+/-- syntactically non-negative slack: `0`, `1`, `2`, the machine epsilon, `1 + eps`, or any non-negative literal that occurs in it -/
 def slackNonneg (d : E) : Bool :=
   polyEq d (.lit 0 1) || polyEq d (.lit 1 1) || polyEq d (.lit 2 1) || polyEq d (.konst .eps)
-    || polyEq d (.add (.lit 1 1) (.konst .eps))
+    || polyEq d (.add (.lit 1 1) (.konst .eps)) || d.lits.any fun l => isNonnegLit l && polyEq d l
 
 /-- the decisions on `path` (or literal comparison) imply `x ≤ y`: some recorded fact `0 ≤ d` satisfies
     `(y - x) - d = slack ≥ 0` as polynomials -/
